@@ -243,7 +243,7 @@ func (f changeFinder) walkSlice(from, to *value) bool {
 		return equal
 	}
 
-	es := diff.Difference(from.Len(), to.Len(), memoize(from.Len(), to.Len(), func(i, j int) diff.Result {
+	es := diff.Difference(from.Len(), to.Len(), memoize(func(i, j int) diff.Result {
 		return compareNodes(from.Children[i], to.Children[j])
 	}))
 
@@ -319,18 +319,20 @@ func (f changeFinder) walkSlice(from, to *value) bool {
 // indexes. diff.Difference may ask about the same pair several times, and
 // comparing two nodes compares their whole subtrees, lists included: without
 // this the cost doubles with every level of nesting.
-func memoize(nx, ny int, f diff.EqualFunc) diff.EqualFunc {
-	type entry struct {
-		result diff.Result
-		known  bool
-	}
-	seen := make([]entry, nx*ny)
+//
+// Only the pairs that were asked about are remembered: diff.Difference looks
+// at a narrow band of the nx*ny pairs, and a table of all of them would take
+// gigabytes for a list of a few ten thousand elements.
+func memoize(f diff.EqualFunc) diff.EqualFunc {
+	seen := make(map[[2]int]diff.Result)
 	return func(i, j int) diff.Result {
-		e := &seen[i*ny+j]
-		if !e.known {
-			e.result, e.known = f(i, j), true
+		k := [2]int{i, j}
+		r, ok := seen[k]
+		if !ok {
+			r = f(i, j)
+			seen[k] = r
 		}
-		return e.result
+		return r
 	}
 }
 
@@ -376,22 +378,16 @@ func (c *nodeComparer) Walk(from, to *value) {
 		}
 
 	case reflect.Slice:
-		results := make([][]diff.Result, from.Len())
-		for i := range results {
-			results[i] = make([]diff.Result, to.Len())
-		}
-
-		es := diff.Difference(from.Len(), to.Len(), memoize(from.Len(), to.Len(), func(i, j int) diff.Result {
-			result := compareNodes(from.Children[i], to.Children[j])
-			results[i][j] = result
-			return result
-		}))
+		compare := memoize(func(i, j int) diff.Result {
+			return compareNodes(from.Children[i], to.Children[j])
+		})
+		es := diff.Difference(from.Len(), to.Len(), compare)
 
 		var i, j int
 		for _, e := range es {
 			switch e {
 			case diff.Identity, diff.Modified:
-				result := results[i][j]
+				result := compare(i, j)
 				c.NumDiff += result.NumDiff
 				c.NumSame += result.NumSame
 				i++
